@@ -100,17 +100,20 @@ def SubsC (comb : List Nat) (snapped : List (Ival α)) (subs : List (Option (Nod
 /-- the purely structural part of the invariant, for a tree and (recursively) for all its sub-nodes -/
 inductive Shape : Node α → Prop
   | leaf (d : NodeData α) (subs : List (Option (Node α))) (rows : List Nat) :
-      d.snapped.length = d.comb.length → SubsC d.comb d.snapped subs →
+      (d.snapped.length = d.comb.length ∧ d.actual.length = d.comb.length ∧ (2 ≤ d.comb.length → subs.length = d.comb.length)) →
+      SubsC d.comb d.snapped subs →
       (∀ (k : Nat) (s : Node α), subs[k]? = some (some s) → Shape s) → Shape (.leaf d subs rows)
   | branch (d : NodeData α) (subs : List (Option (Node α))) (ch : List (Nat × Node α)) :
-      d.snapped.length = d.comb.length → SubsC d.comb d.snapped subs →
+      (d.snapped.length = d.comb.length ∧ d.actual.length = d.comb.length ∧ (2 ≤ d.comb.length → subs.length = d.comb.length)) →
+      SubsC d.comb d.snapped subs →
       (∀ (k : Nat) (s : Node α), subs[k]? = some (some s) → Shape s) → (ch.map (·.1)).Nodup →
       (∀ p ∈ ch, p.2.data.comb = d.comb ∧ p.2.data.path = d.path ++ [p.1] ∧ p.2.data.snapped = childRanges d p.1) →
       (∀ p ∈ ch, Shape p.2) → Shape (.branch d subs ch)
 
 /-- sub-nodes are the right projections, and are themselves well-shaped -/
 def SubsOK (comb : List Nat) (snapped : List (Ival α)) (subs : List (Option (Node α))) : Prop :=
-  SubsC comb snapped subs ∧ ∀ (k : Nat) (s : Node α), subs[k]? = some (some s) → Shape s
+  SubsC comb snapped subs ∧ (∀ (k : Nat) (s : Node α), subs[k]? = some (some s) → Shape s) ∧
+    (2 ≤ comb.length → subs.length = comb.length)
 
 /-- the part of the invariant every node carries: `all` are the rows held, `hullRows` the rows the tight range spans -/
 structure NodeOK (E : Env α) (c : FCtx α) (root : List (Ival α)) (d : NodeData α) (subs : List (Option (Node α)))
@@ -322,11 +325,11 @@ theorem createChild_subs (d : NodeData α) (subs : List (Option (Node α))) (idx
       · rename_i ds ss chs
         exact ⟨ds, ss, chs, hz2, lookupChild_mem hk⟩
       · cases hk
-  constructor
+  refine ⟨?_, ?_, ?_⟩
   · intro k s' hk
     obtain ⟨ds, ss, chs, hsub, hmem⟩ := key k s' hk
     obtain ⟨hkl, hc, hs⟩ := h.1 k _ hsub
-    have hsh := h.2 k _ hsub
+    have hsh := h.2.1 k _ hsub
     cases hsh with
     | branch _ _ _ hSs _ _ _ hchild _ =>
       obtain ⟨c1, _, c3⟩ := hchild _ hmem
@@ -335,12 +338,16 @@ theorem createChild_subs (d : NodeData α) (subs : List (Option (Node α))) (idx
       exact childRanges_erase d ds idx k hS hkl hc hs
   · intro k s' hk
     obtain ⟨ds, ss, chs, hsub, hmem⟩ := key k s' hk
-    have hsh := h.2 k _ hsub
+    have hsh := h.2.1 k _ hsub
     cases hsh with
     | branch _ _ _ _ _ _ _ _ hC => exact hC _ hmem
+  · intro h2
+    simp only [List.length_map, List.length_zip, List.length_range, Nat.min_self]
+    exact h.2.2 h2
 
-theorem subsOK_nil {comb : List Nat} {snapped : List (Ival α)} : SubsOK comb snapped ([] : List (Option (Node α))) :=
-  ⟨fun k s h => by simp at h, fun k s h => by simp at h⟩
+theorem subsOK_nil {comb : List Nat} {snapped : List (Ival α)} (hc : comb.length ≤ 1) :
+    SubsOK comb snapped ([] : List (Option (Node α))) :=
+  ⟨fun k s h => by simp at h, fun k s h => by simp at h, fun h => by omega⟩
 
 /-- a fresh leaf for a row that lies inside the leaf's ranges satisfies the invariant -/
 theorem mkLeaf_ok (E : Env α) (c : FCtx α) (root : List (Ival α)) (comb path : List Nat) (seed : UInt64)
@@ -682,15 +689,15 @@ theorem Node.Sub.rows_subset {n t : Node α} (hs : Node.Sub n t) : ∀ r ∈ n.a
 theorem TInvX.shape {E : Env α} {c : FCtx α} {root : List (Ival α)} {ex : List Nat} {t : Node α} (h : TInvX E c root ex t) :
     Shape t := by
   induction h with
-  | leaf extra d subs rows hN => exact Shape.leaf _ _ _ hN.lenS hN.subsOK.1 hN.subsOK.2
+  | leaf extra d subs rows hN => exact Shape.leaf _ _ _ ⟨hN.lenS, hN.lenA, hN.subsOK.2.2⟩ hN.subsOK.1 hN.subsOK.2.1
   | branch extra d subs ch hN hB hC ih =>
-    exact Shape.branch _ _ _ hN.lenS hN.subsOK.1 hN.subsOK.2 hB.keys
+    exact Shape.branch _ _ _ ⟨hN.lenS, hN.lenA, hN.subsOK.2.2⟩ hN.subsOK.1 hN.subsOK.2.1 hB.keys
       (fun p hp => ⟨(hB.child p hp).1, (hB.child p hp).2.1, (hB.child p hp).2.2.2⟩) ih
 
 
 theorem Shape.lenS {t : Node α} (h : Shape t) : t.data.snapped.length = t.data.comb.length := by
   cases h with
-  | leaf _ _ _ hS _ _ => exact hS
-  | branch _ _ _ hS _ _ _ _ _ => exact hS
+  | leaf _ _ _ hS _ _ => exact hS.1
+  | branch _ _ _ hS _ _ _ _ _ => exact hS.1
 
 end
